@@ -60,6 +60,12 @@ def examine_string(s, P=None):
             which = [p for p in parts if acc[p]]
             out.append(V('union-exact', ['union', comp, 'composite-only' if acc[comp] else 'part-only'] + which[:1],
                          case, {'composite': acc[comp], 'parts': which}))
+    # the public checker IS the general pattern (a string it lets through that the pattern - hence every family - refuses is a
+    # "valid code" without a family, a unit or a kind)
+    ck = call(athlib.check_event_code, s)
+    if ck[0] == 'exc' or bool(ck[1]) != acc['PAT_EVENT_CODE']:
+        out.append(V('union-exact', ['union', 'check_event_code', 'checker-only' if ck[0] == 'ret' and ck[1] else 'pattern-only'],
+                     case, ck[:2], acc['PAT_EVENT_CODE']))
     kinds = [k for k, n in KINDS.items() if acc[n]]
     if len(kinds) > 1:
         out.append(V('kinds-disjoint', ['kinds-overlap'] + sorted(kinds), case, kinds))
@@ -129,7 +135,8 @@ def shard_generated(ctx, payload):
     g = codegen.Gen(getattr(codes, name), name)
     for i in range(n):
         s = g.generate(rng.randrange, long_digits=(i % 7 == 0))
-        variants = [s, s + '\n', codegen.near_misses(s, rng.randrange), codegen.near_misses(s, rng.randrange)]
+        variants = [s, s + '\n', codegen.near_misses(s, rng.randrange), codegen.near_misses(s, rng.randrange),
+                    codegen.lookalikes(s, rng.randrange)]          # Unicode look-alikes of its letters / digits / blanks
         if i % 5 == 0:
             variants.append(codegen.near_misses(variants[2], rng.randrange))
         for j, t in enumerate(variants):
